@@ -70,6 +70,63 @@ theorem no_break_one_line (t : List Nat) (hne : t ≠ []) (h : ∀ c ∈ t, line
   rw [lineEndings_eq_E, scan_none _ _ _ (splitFirst_none_of t h)]
   simp [hne]
 
+/-! ## indent (the other user of the scan) -/
+
+/-- `iter_splitlines` never yields a lone empty string: the empty text has no lines, every other
+    text has a non-empty line or at least two lines -/
+theorem splitlines_ne_single_empty (t : List Nat) : iterSplitlines t ≠ [[]] := by
+  rw [splitlines_eight_forms]
+  exact splitFin_ne_singleton_nil t
+
+/-- `iter_splitlines` undoes `'\n'.join`: for any lines without line-break characters (other than the
+    lone `['']`, which joins to the empty text) -/
+theorem splitlines_join (ls : List (List Nat)) (hb : ∀ l ∈ ls, ∀ c ∈ l, lineBreakChar c = false)
+    (hne : ls ≠ [[]]) : iterSplitlines (joinWith [10] ls) = ls := by
+  rw [splitlines_eight_forms]
+  exact splitFin_join ls hb hne
+
+/-- `indent(text, margin, newline, key)` is the `newline`-join of the lines of the text — the
+    eight-form split plus the final empty line — with the margin put before the lines `key` selects -/
+theorem indent_spec (key : List Nat → Bool) (m nl t : List Nat) :
+    indent key m nl t = joinWith nl
+      ((eightSplitlines t ++ (if endsWithBreak t then [[]] else [])).map
+        fun l => if key l then m ++ l else l) := by
+  unfold indent
+  rw [splitlines_eight_forms]
+
+/-- hence indenting changes no line structure: the lines of `indent(text, margin)` (default
+    newline, any key, margin without line breaks) are the lines of the text, each with its margin -/
+theorem indent_lines (key : List Nat → Bool) (m t : List Nat)
+    (hm : ∀ c ∈ m, lineBreakChar c = false) :
+    iterSplitlines (indent key m [10] t) =
+      (iterSplitlines t).map fun l => if key l then m ++ l else l := by
+  unfold indent
+  apply splitlines_join
+  · intro l hl c hc
+    obtain ⟨l0, hl0, rfl⟩ := List.mem_map.mp hl
+    have h0 : ∀ c ∈ l0, lineBreakChar c = false := by
+      obtain ⟨p, hp, rfl⟩ := List.mem_map.mp hl0
+      exact (no_other_splits t p hp).1
+    split at hc
+    · rcases List.mem_append.mp hc with hc | hc
+      · exact hm c hc
+      · exact h0 c hc
+    · exact h0 c hc
+  · intro h
+    have hlen : (iterSplitlines t).length = 1 := by
+      have := congrArg List.length h
+      simpa using this
+    match hi : iterSplitlines t, hlen with
+    | [l0], _ =>
+      rw [hi] at h
+      simp only [List.map_cons, List.map_nil, List.cons.injEq, and_true] at h
+      have : l0 = [] := by
+        split at h
+        · exact (List.append_eq_nil_iff.mp h).2
+        · exact h
+      subst this
+      exact splitlines_ne_single_empty t hi
+
 /-! ## reverse_iter_lines -/
 
 /-- for every block size ≥ 1 the loop yields the lines of the content — `bytes.splitlines()` plus a
@@ -312,5 +369,13 @@ example : ∀ p, 1 ≤ alignedRead 3 p := alignedRead_pos 3 (by decide)
 -- preseek=False from the middle of "a\nb\nc": position 3 (just after the 'b')
 example : reverseIterLinesFrom [97, 10, 98, 10, 99] 3 2 = [[98], [97]] := by decide
 example : reverseIterLinesFrom [97, 10, 98, 10, 99] 4 2 = [[], [98], [97]] := by decide
+
+-- indent("a\n\nb\n", "  "): the blank line and the final empty line get no margin
+example : indent keyBool [32, 32] [10] [97, 10, 10, 98, 10] = [32, 32, 97, 10, 10, 32, 32, 98, 10] := by decide
+example : iterSplitlines (indent keyBool [32, 32] [10] [97, 10, 10, 98, 10]) = [[32, 32, 97], [], [32, 32, 98], []] := by decide
+-- the exception in `splitlines_join` is real: '\n'.join(['']) = '' has no lines
+example : iterSplitlines (joinWith [10] [[]]) = [] := by decide
+-- and so is the margin hypothesis of `indent_lines`: a margin with a line break adds lines
+example : iterSplitlines (indent keyBool [10] [10] [97]) ≠ (iterSplitlines [97]).map (fun l => if keyBool l then [10] ++ l else l) := by decide
 
 end C19
